@@ -391,6 +391,8 @@ class Multi:
             payload = "".join(payloads)
             if o is not None:
                 rows = self.pristine.rows_of_bytes(payload)
+                if o.hooked:
+                    self.probes["hooked_prints"] += 1
                 o.begin_op([k, TOKEN.findall(payload)[:1]], [("print", rows)])
                 if o.tracker:
                     o.tracker.print_begin()
@@ -511,7 +513,8 @@ class Multi:
                               "msg": "%s died: %s" % (t.name, (t.tb or "")[-700:]), "seq": sim.seq})
         probes = dict(self.probes)
         if self.oracle is not None:
-            probes.update({"o_" + k: v for k, v in self.oracle.probe.items()})
+            probes.update({"o_" + k: v for k, v in self.oracle.probe.items()
+                           if k not in ("frame_exact_screen_height", "frame_taller_than_screen", "relaxed_runs")})
         probes["lock_contended"] = sim.stats["lock_contended"]
         faults = {"timer_fired_by_choice": sim.stats["timer_fired_by_choice"], "preemptions": max(0, sim.switches - len(sim.threads))}
         return {"violations": viols, "faults": faults, "probes": probes, "nontrivial": sim.switches > len(sim.threads),
